@@ -23,8 +23,8 @@ def sm_coq(o):
         return "SBreak"
     if n == "drop":
         return "SDrop"
-    if n == "writes":
-        return "SWrites"
+    if n in ("writes", "pinger", "sleep"):
+        return "SWrites"          # pinger / sleep answer [OK]: an observation with nothing written
     raise KeyError(n)
 
 
@@ -93,6 +93,15 @@ AUTH_SCRIPTED = [
 ]
 
 
+def send_sites_changed():
+    """has the source another set of sendDirect call sites than the send machine model (props/C18.v, C18_source_send_direct_sites)"""
+    try:
+        t = open(os.path.join(vlib.COQ, "gen", "SendSites.v")).read()
+    except OSError:
+        return True
+    return '[("Ready", "ready-message"); ("sendMessage", "handshake-guard")]' not in t
+
+
 def gen_sm(rng, nops):
     ops = []
     running = False
@@ -135,7 +144,7 @@ def gen_sm(rng, nops):
 
 def sm_suite(tier, rng, replay):
     cases = []
-    is_auth = bool(replay) and any(o[0] in ("gensession", "srv_accept", "flags", "srv_data") for o in replay.get("ops", []))
+    is_auth = bool(replay) and any(o[0] in ("gensession", "srv_accept", "flags", "srv_data", "pinger") for o in replay.get("ops", []))
     if replay and replay.get("suite") == "sendmachine" and replay.get("cfg", {}).get("hs_timeout_ms") is None and not is_auth:
         cases.append({"cfg": replay["cfg"], "ops": replay["ops"], "origin": "replay"})
     elif not replay:
@@ -153,7 +162,7 @@ def sm_suite(tier, rng, replay):
         c["coq_ops"] = [sm_coq(o) for o in c["ops"]]
     groups = [{"key": "sendmachine", "optype": "sop", "cases": cases, "model": "cmp_run srun",
                "monitors": {"c18sm": "sm_monitor"}}]
-    if not replay or (replay.get("cfg", {}).get("hs_timeout_ms") is not None and not is_auth):
+    if not replay or (replay.get("cfg", {}).get("hs_timeout_ms") is not None and not is_auth and not any(o[0] == "pinger" for o in replay.get("ops", []))):
         # a handshake time-out configured as zero / very short: the sender's wait for the handshake ends at once;
         # whatever the connection then does, nothing but handshake-type messages may be written and nothing may be
         # acknowledged without having been written.  Monitor only (the model has no zero-length wait).
@@ -168,7 +177,7 @@ def sm_suite(tier, rng, replay):
         for c in zcases:
             c["coq_ops"] = [sm_coq(o) for o in c["ops"]]
         groups.append({"key": "sendmachine-hs0", "optype": "sop", "cases": zcases, "monitors": {"c18sm": "sm_monitor"}})
-    if not replay or is_auth:
+    if not replay or (is_auth and not any(o[0] == "pinger" for o in replay.get("ops", []))):
         acases = []
         if replay:
             acases.append({"cfg": replay["cfg"], "ops": replay["ops"], "origin": "replay"})
@@ -181,6 +190,15 @@ def sm_suite(tier, rng, replay):
             c["coq_ops"] = [auth_coq(o) for o in c["ops"]]
         groups.append({"key": "sendmachine-auth", "optype": "aop", "cases": acases, "model": "cmp_run arun",
                        "monitors": {"c18auth": "auth_monitor"}})
+    is_ping = bool(replay) and any(o[0] == "pinger" for o in replay.get("ops", []))
+    if (not replay and (tier != "quick" or send_sites_changed())) or is_ping:
+        # the keep-alive goroutine (a ping every two minutes, counted from Run) ticking while a connection's handshake is
+        # not complete: the ping is a request and must wait in the gated queue.  Takes two minutes: thorough tier, and
+        # the quick tier when the source's list of sendDirect callers (gen/SendSites.v) is not the model's any more.
+        pops = replay["ops"] if is_ping else [["pinger"], ["connect"], ["sleep", 122500], ["writes"], ["drop"], ["writes"]]
+        pc = {"cfg": replay["cfg"] if is_ping else {"hs_timeout_ms": 300000}, "ops": pops, "origin": "scripted-keepalive"}
+        pc["coq_ops"] = [sm_coq(o) for o in pc["ops"]]
+        groups.append({"key": "sendmachine-ping", "optype": "sop", "cases": [pc], "monitors": {"c18sm": "sm_monitor"}})
     for g in groups:
         for c in g["cases"]:
             if "coq_ops" not in c:
